@@ -73,12 +73,13 @@ def check_fork_exec(parent: List[int], overlay: List[int], use_none: bool, fds: 
             and a[12] == 40 and a[13] == 41 and (raised or pid == 4242))
 
 
-def check_launch(extra: List[int], tracker_fd: int, mp_fd: int, env_sel: int, init_main: bool) -> bool:
+def check_launch(extra: List[int], tracker_fd: int, mp_fd: int, env_sel: int, init_main: bool, stale: int = 0) -> bool:
     """
     pre: len(extra) <= 2 and all(60 <= f <= 63 for f in extra) and len(set(extra)) == len(extra)
-    pre: 20 <= tracker_fd <= 21 and 30 <= mp_fd <= 31 and 0 <= env_sel <= 1
+    pre: 20 <= tracker_fd <= 21 and 30 <= mp_fd <= 31 and 0 <= env_sel <= 1 and 0 <= stale <= 2
     post: _
     """
+    stale = _conc(stale, 2)
     extra = [_conc(f - 60, 3) + 60 for f in extra]
     tracker_fd, mp_fd = _conc(tracker_fd - 20, 1) + 20, _conc(mp_fd - 30, 1) + 30
     log = Log()
@@ -131,7 +132,17 @@ def check_launch(extra: List[int], tracker_fd: int, mp_fd: int, env_sel: int, in
     pop.os = NS(pipe=pipe, close=close, fdopen=lambda fd, mode: F(fd), name="posix", WNOHANG=1)
     pop.reduction = NS(dump=dump, _mk_inheritable=lambda fd: (log.add("inheritable", fd), fd)[1])
     pop.spawn = NS(get_preparation_data=get_prep)
-    pop.resource_tracker = NS(_resource_tracker=NS(getfd=lambda: tracker_fd))
+    # the tracker object as the launch finds it: never started (_fd None), running (_fd current), or dead with the fd
+    # of the previous tracker still recorded (stale); getfd() = ensure_running() + return the (possibly new) fd
+    trk = NS(_fd=[tracker_fd, None, tracker_fd + 5][stale], _pid=5)
+
+    def getfd():
+        log.add("getfd")
+        trk._fd = tracker_fd
+        return tracker_fd
+    trk.getfd = getfd
+    trk.ensure_running = lambda: (log.add("ensure"), setattr(trk, "_fd", tracker_fd))[0]
+    pop.resource_tracker = NS(_resource_tracker=trk)
     pop.util = NS(debug=lambda *a: None, Finalize=lambda obj, cb, args=(): log.add("finalize", cb is close, args))
     fe.fork_exec = fork_exec
     popen = pop.Popen.__new__(pop.Popen)
@@ -156,6 +167,101 @@ def check_launch(extra: List[int], tracker_fd: int, mp_fd: int, env_sel: int, in
             and log.count("close", parent_w) == 1 and log.count("close", parent_r) == 0
             and popen.sentinel == parent_r and popen.pid == 777
             and log.count("finalize", True, (parent_r,)) == 1 and opened == {parent_r})
+
+
+def check_popen_fork_failure(fails: int, n_extra: int, errno_kind: int) -> bool:
+    """
+    pre: 0 <= fails <= 2 and 0 <= n_extra <= 1 and 0 <= errno_kind <= 1
+    post: _
+    """
+    # the real Popen.__init__ when fork/exec fails (EAGAIN: process limit reached; ENOMEM) the first `fails` times:
+    # either the error reaches the caller, or the launch that finally succeeds hands the child exactly the
+    # deliberate handles *of that attempt* - no descriptor number left over from a failed attempt (by then it is
+    # closed, or worse re-used by an unrelated file of the parent) - and every failed attempt closed its pipe ends
+    import errno
+    fails, n_extra, errno_kind = _conc(fails, 2), _conc(n_extra, 1), _conc(errno_kind, 1)
+    extra = [60][:n_extra]
+    tracker_fd, mp_fd = 20, 30
+    log = Log()
+    nxt = [100]
+    opened = set()
+    attempts = []
+
+    def pipe():
+        r, w = nxt[0], nxt[0] + 1
+        nxt[0] += 2
+        opened.update((r, w))
+        return r, w
+
+    def close(fd):
+        log.add("close", fd)
+        opened.discard(fd)
+
+    class F:
+        def __init__(self, fd):
+            self.fd = fd
+
+        def __enter__(self):
+            return self
+
+        def __exit__(self, *a):
+            close(self.fd)
+
+        def write(self, b):
+            log.add("write", self.fd)
+
+    def fork_exec(cmd, fds, env=None):
+        attempts.append((list(fds), set(opened)))
+        if len(attempts) <= fails:
+            if errno_kind == 0:
+                raise BlockingIOError(errno.EAGAIN, "Resource temporarily unavailable")
+            raise OSError(errno.ENOMEM, "Cannot allocate memory")
+        return 777
+
+    proc = NS(_name="W", name="W", env={}, init_main_module=False)
+
+    def dump(obj, fp):
+        if obj is proc:
+            for f in extra:
+                popen.duplicate_for_child(f)
+
+    trk = NS(_fd=tracker_fd, _pid=5, getfd=lambda: tracker_fd, ensure_running=lambda: None)
+    saved = (pop.os, pop.reduction, pop.spawn, pop.resource_tracker, fe.fork_exec, pop.util, pop.__dict__.get("time"))
+    pop.os = NS(pipe=pipe, close=close, fdopen=lambda fd, mode: F(fd), name="posix", WNOHANG=1)
+    pop.reduction = NS(dump=dump, _mk_inheritable=lambda fd: fd)
+    pop.spawn = NS(get_preparation_data=lambda name, flag: {"mp_tracker_args": {"fd": mp_fd, "pid": 1}})
+    pop.resource_tracker = NS(_resource_tracker=trk)
+    pop.util = NS(debug=lambda *a: None, info=lambda *a: None, Finalize=lambda obj, cb, args=(): log.add("finalize", args))
+    pop.time = NS(sleep=lambda dt: log.add("sleep"), time=lambda: 0.0, monotonic=lambda: 0.0)
+    fe.fork_exec = fork_exec
+    popen = pop.Popen.__new__(pop.Popen)
+    try:
+        try:
+            pop.Popen.__init__(popen, proc)
+            raised = False
+        except OSError:
+            raised = True
+    finally:
+        pop.os, pop.reduction, pop.spawn, pop.resource_tracker, fe.fork_exec, pop.util = saved[:6]
+        if saved[6] is None:
+            pop.__dict__.pop("time", None)
+        else:
+            pop.time = saved[6]
+    if fails == 0 and raised:
+        return False
+    # pipe ends of attempt k (0-based): parent_r=100+4k, child_w=101+4k, child_r=102+4k, parent_w=103+4k
+    for k, (fds, open_then) in enumerate(attempts):
+        want = set(extra) | {102 + 4 * k, 101 + 4 * k, tracker_fd, mp_fd}
+        if set(fds) != want or len(fds) != len(want):
+            return False  # a handle the child must not get (stale number of an earlier attempt), or one missing
+        if not {102 + 4 * k, 101 + 4 * k}.issubset(open_then):
+            return False
+    for k in range(len(attempts)):
+        if 101 + 4 * k in opened or 102 + 4 * k in opened:
+            return False  # child ends are closed in the parent after every attempt, failed or not
+    if raised:
+        return len(attempts) >= 1
+    return popen.pid == 777 and len(attempts) == fails + 1
 
 
 def check_process_defaults(kind: int) -> bool:
